@@ -108,7 +108,9 @@ FStep(G0, ev) ==
     [] ev.k \in {"rp", "rg"} /\ ev.res = "tok" ->
          LET G1 == [G EXCEPT !.tk = Append(@, [kind |-> IF ev.k = "rp" THEN "put" ELSE "get", e |-> ev.e, n |-> ev.n,
                                                 pid |-> ev.pid, step |-> ev.step, st |-> "live", role |-> ev.role])]
-         IN IF ev.k = "rp" /\ ev.it > 0 /\ ev.it <= Len(G.it) THEN MarkOfferedE(G1, ev.it, ev.t, ev.n, ev.e) ELSE G1
+         IN IF ev.k = "rp" /\ ev.it > 0 /\ ev.it <= Len(G.it) THEN MarkOfferedE(G1, ev.it, ev.t, ev.n, ev.e)
+            ELSE IF ev.k = "rp" /\ ev.n > 0 THEN Bad(G1, "space reservation without an item: the harness lost track of the item")
+            ELSE G1
     [] ev.k = "canput" /\ ev.it > 0 /\ ev.it <= Len(G.it) ->
          \* a FIRST_AVAILABLE probe loop asks several edges; only an index policy commits to the probed edge
          IF Node(ev.n).policy_out = "FIRST_AVAILABLE" THEN MarkOfferedC(G, ev.it, ev.t, ev.n, 0, FALSE)
@@ -160,7 +162,7 @@ FStep(G0, ev) ==
                          G1 == [G0m EXCEPT !.it[x].pl = <<"disc", ev.n>>, !.it[x].unit = FALSE,
                                                       !.nd[ev.n].disc = @ + 1, !.nd[ev.n].exp = @ \ {x}]
                      IN IF G.it[x].pl = <<"node", ev.n>> /\ G.it[x].unit THEN [G1 EXCEPT !.nd[ev.n].held = @ - 1] ELSE G1
-                ELSE [G EXCEPT !.nd[ev.n].disc = @ + 1]
+                ELSE Bad([G EXCEPT !.nd[ev.n].disc = @ + 1], "discard without an item: the harness lost track of the item")
            [] ev.key = "recv" -> [G EXCEPT !.nd[ev.n].recv = @ + 1]
            [] ev.key = "proc" -> [G EXCEPT !.nd[ev.n].proc = @ + 1]
            [] OTHER -> G
